@@ -32,7 +32,7 @@ LEVEL_NOTE = ('Trusted: bvf/decoders.py; the image written by the tool is the re
 @st.composite
 def _cases(draw, tier):
     cfg = draw(G.layout_isa(zones=True, blocks=True))
-    b, feats = G.general_program(draw, cfg, max_steps=22, extra=['include', 'include', 'probe', 'probe', 'mute', 'local', 'local', 'lprobe', 'lprobe', 'lprobe'])
+    b, feats = G.general_program(draw, cfg, max_steps=22, extra=['include', 'include', 'probe', 'probe', 'mute', 'local', 'local', 'lprobe', 'lprobe', 'lprobe', 'zonecursor'])
     return {'isa': cfg, 'items': b.items, 'lo': b.lo, 'feats': sorted(feats), 'wpick': draw(st.integers(0, 10 ** 6))}
 
 
